@@ -1109,6 +1109,70 @@ def check_dataview(ctx, tu, tag=''):
     ctx.floor(R5, n, 12, 'record + operator[] + constructor + reset, x 3 element types')
 
 
+REALLOC_CALLS = {'reserve', 'resize', 'push_back', 'emplace_back', 'insert', 'emplace', 'assign', 'shrink_to_fit', 'clear',
+                 'operator=', 'swap', 'erase', 'pop_back'}
+
+
+def check_alias_after_realloc(ctx, tu, tag=''):
+    """R-C11-7: in a member of a wrapper that owns a by-value container, a reference parameter of the element type may
+    alias an element of that very container (a.resize(n, a[0]), a.push_back(a[0])).  After a call that can reallocate
+    or destroy the owner's elements, such a parameter must not be read any more (reading it inside the argument list of
+    that call itself is fine: the standard containers handle self-aliasing arguments)."""
+    R7 = 'R-C11-7'
+    ctx.describe(R7, 'a by-reference element parameter of an owning wrapper is never read after a call that can reallocate or '
+                     'destroy the owned elements on the same path (it may alias one of them)')
+    n = 0
+    for f in sorted(tu.functions.values(), key=lambda x: (x['q'], x['fty'])):
+        if f['dep'] or tu.cfg(f) is None or not f.get('recid') or f.get('ctor') or f.get('dtor'):
+            continue
+        r = tu.records.get(f['recid'])
+        if r is None or not r['q'].startswith('rkcommon::utility::') or not r.get('targs') or 't' not in r['targs'][0]:
+            continue
+        elem = r['targs'][0]['t']
+        owners = [fl for fl in r['fields'] if re.match(r'std::(vector|deque|basic_string)<', fl['ct'])]
+        if not owners:
+            continue
+        refs = [p for p in f['params'] if p['ct'] in ('const %s &' % elem, '%s &' % elem)]
+        if not refs:
+            continue
+        owner_ids = {fl['id'] for fl in owners}
+        g = tu.cfg(f)
+        inst = inst_name(f) + tag
+        ref_ids = {p['id']: p['name'] for p in refs}
+        found = []
+
+        def transfer(blk, i, el, st):
+            if el[0] != 'S':
+                return [st]
+            x = tu.node(el[1])
+            if x is None:
+                return [st]
+            k = x.get('kind')
+            if k in ('CXXMemberCallExpr', 'CXXOperatorCallExpr'):
+                sd, obj, args = tu.call_parts(x)
+                o = tu.strip(obj, casts=True) if obj is not None else None
+                if o is not None and o.get('kind') == 'MemberExpr' and tu.sd(o).get('d') in owner_ids \
+                        and sd.get('q', '').split('::')[-1] in REALLOC_CALLS:
+                    return [x['id']]
+            if k == 'DeclRefExpr' and x.get('referencedDecl', {}).get('id') in ref_ids and st is not None:
+                found.append((x, st))
+            return [st]
+
+        g.explore([None], transfer)
+        n += 1
+        if found:
+            x, callid = found[0]
+            call = tu.node(callid)
+            ctx.violation(R7, inst, 'parameter `%s` (a reference to an element type value, which may be an element of this array) is read at %s '
+                          'after `%s` at %s may already have reallocated or destroyed the owned elements: use-after-free for '
+                          'a.%s(..., a[i])' % (ref_ids[x['referencedDecl']['id']], tu.loc(x), tu.show(call), tu.loc(call), f['q'].split('::')[-1]),
+                          tu.loc(x), key='%s|%s|%s|param-read-after-realloc' % (R7, tu.fn_file(f), pattern_name(tu, f)),
+                          path=['%s' % inst, 'reallocating call %s at %s' % (tu.show(call), tu.loc(call)), 'later read of the parameter at %s' % tu.loc(x)])
+        else:
+            ctx.ok(R7, inst, 'reference parameter(s) %s not read after a reallocating call' % sorted(ref_ids.values()), tu.fn_loc(f))
+    ctx.floor(R7 + tag, n, 3, 'OwnedArray<T>::resize(size, const T&) for the instantiated element types')
+
+
 def run(ctx):
     ctx.assume('callers pass (pointer, size) pairs that designate live storage of that many elements; FixedArrayView callers pass '
                'offset + size within the viewed array')
@@ -1125,5 +1189,6 @@ def run(ctx):
         check_wrappers(ctx, tu, tag)
         check_abstract(ctx, tu, tag)
         check_dataview(ctx, tu, tag)
+        check_alias_after_realloc(ctx, tu, tag)
     from rkstatic import selftest
     selftest.run(ctx)
